@@ -151,18 +151,36 @@ def run(prog: Program, rep, thorough: bool) -> None:
     cfgc = prog.cls(C.M_TC, 'Config')
     captured: Dict[str, List] = {'density': [], 'cd': []}
 
+    in_drag = [False]
+
     def symcall(ev_, fv, args, kwargs, st):
         if fv.path.endswith('.' + DENSITY_CALL):
             captured['density'].append(args[0] if args else None)
             return Tup([S('rho'), S('a')])
+        if in_drag[0]:
+            # inside drag_by_mach, a lookup on an object built elsewhere (the fitted curve kept as an object of its own):
+            # the drag coefficient as a function of its one numeric argument
+            nums = [a_ for a_ in list(args) + list(kwargs.values()) if isinstance(a_, (Scalar, Cond))]
+            if len(nums) == 1 and len(args) + len(kwargs) == 1:
+                captured['cd'].append((None, None, nums[0]))
+                return ev_.lift(lambda mm: Scalar(A.fn('Cd', ev_.scalar(mm))), nums[0])
         return None
+
+    def drag_hook(ev_, func, args, kwargs, st, self_val):
+        if in_drag[0]:
+            return None
+        in_drag[0] = True
+        try:
+            return ev_.call_func(func, args, kwargs, st, Ctx(func.module, None, None, 1), self_val=self_val)
+        finally:
+            in_drag[0] = False
 
     def cd_hook(ev_, func, args, kwargs, st, self_val):
         m = args[2] if len(args) > 2 else kwargs.get('mach')
         captured['cd'].append((args[0] if args else None, args[1] if len(args) > 1 else None, m))
         return ev_.lift(lambda mm: Scalar(A.fn('Cd', ev_.scalar(mm))), m)
     ev = Evaluator(prog, hooks={'symcall': symcall, 'call:_calculate_by_curve_and_mach_list': cd_hook,
-                                **C.no_wrap_hooks()},
+                                'call:TrajectoryCalc.drag_by_mach': drag_hook, **C.no_wrap_hooks()},
                    opaque={'create_trajectory_row', 'spin_drift'})
     ctx = Ctx(tc, F.func, None, 0)
 
